@@ -381,6 +381,8 @@ func Corpus(o Options) []Case {
 		form("generic constraint with method", "[S dep.CM]", 1, "\tM(a S) string\n", []string{"M"}, [][]string{{"dep.Str"}}, "")
 		form("generic constraint mentions other param", "[E any, S ~[]E]", 2, "\tM(s S) E\n", []string{"M"}, [][]string{{"int", "[]int"}, {"src.LT", "[]src.LT"}}, "")
 		form("generic io constraint", "[R io.Reader]", 1, "\tM(r R) (R, error)\n", []string{"M"}, [][]string{{"io.Reader"}, {"*strings.Reader"}}, "")
+		form("generic tilde over composite types with qualified elements", "[S ~[]time.Duration, M ~map[string]dep.T]", 2, "\tM(s S, m M) (S, M)\n", []string{"M"}, [][]string{{"[]time.Duration", "map[string]dep.T"}}, "")
+		form("generic union of tilde composite and plain terms", "[U ~[]dep.T | ~map[dep.T]bool | *LT]", 1, "\tM(u U) U\n", []string{"M"}, [][]string{{"[]dep.T"}, {"*src.LT"}}, "")
 		form("generic lower-case param", "[t any]", 1, "\tM(a t) t\n", []string{"M"}, simpleT, "")
 		form("generic embeds generic", "[T any]", 1, "\tLIG[T]\n\tM(a T)\n", []string{"Get", "M"}, simpleT, "")
 		form("generic embeds instantiated generic with a concrete argument", "[T any]", 1, "\tLIG[dep.T]\n\tdep.IG[[]T]\n\tPut(k string, v T)\n", []string{"DepG", "Get", "Put"}, simpleT, "")
